@@ -44,7 +44,7 @@ theorem c08_retained_le (P : Nat) (d : Dec) (hi : Inv P d) : retained d ≤ 2 * 
 /-- **C08 bounded memory, number of slices**: the decoder never holds more byte slices than bytes
 plus one (every stored fragment but the first data fragment, and every buffered NALU, is
 non-empty), so the slice headers and the packet buffers they pin are bounded as well.  False before
-/repo commit fc590d9 (continuation fragments without data were stored without limit). -/
+/repo commit f1b05d6 (continuation fragments without data were stored without limit). -/
 theorem c08_fragment_count_le (P : Nat) (d : Dec) (hi : Inv P d) :
     d.fragments.length + d.frameBuffer.length ≤ retained d + 1 ∧
     d.fragments.length ≤ maxAU + P + 1 ∧ d.frameBuffer.length ≤ maxNALUs := by
@@ -76,7 +76,7 @@ theorem c08_out_le (P : Nat) (d : Dec) (p : Pkt) (f : List Bytes) (hi : Inv P d)
   ((decode_spec P d p hi hp).2 f h).2.2
 
 /-- **C08 "a frame or an error"**: a returned access unit has at least one NALU and no empty NALU
-(false before /repo commit e75535c). -/
+(false before /repo commit a0e65b7). -/
 theorem c08_out_nonempty (P : Nat) (d : Dec) (p : Pkt) (f : List Bytes) (hi : Inv P d)
     (hp : p.payload.length ≤ P) (h : (decode d p).2 = .ok f) : f ≠ [] ∧ ∀ n ∈ f, n ≠ [] :=
   ⟨((decode_spec P d p hi hp).2 f h).1, ((decode_spec P d p hi hp).2 f h).2.1⟩
